@@ -721,7 +721,7 @@ def history_roundtrip(t, m, report):
     from biom import Table
     from .. import observe as O
     if 0 in t.shape:
-        return
+        return      # the classic format has no text for a table with an empty axis: to_tsv refuses it by design
     dense = np.asarray(t.matrix_data.toarray(), float)
     if not np.isfinite(dense).all():
         return
